@@ -173,7 +173,8 @@ namespace
         {
             auto si = s.sets.find(c);
             auto ri = s.removes.find(c);
-            if (si == s.sets.end() && ri == s.removes.end() && s.touches.find(c) == s.touches.end())
+            const bool dict = std::is_same_v<Coll, Dict>;
+            if (si == s.sets.end() && (!dict || (ri == s.removes.end() && s.touches.find(c) == s.touches.end())))
             {
                 out.emplace_back(std::nullopt);
                 continue;
@@ -228,6 +229,16 @@ namespace
             else if (l[0] == 4 && l.size() >= 2) { s.touches[l[1]] = true; }
         }
         if (s.ncycles < 0 || s.ncycles > 200) { out.line({39, 1}); return; }
+        if (s.coll != 0)
+        {
+            // a list index outside the list would throw in the middle of the run: reject the case up front
+            const std::int64_t hi = s.coll == 1 ? 40 : 5;
+            for (const Line &l : c)
+            {
+                if (l[0] == 2 && l.size() >= 4 && (l[2] < 0 || l[2] > hi)) { out.line({39, 3}); return; }
+            }
+            s.coll = s.coll == 1 ? 1 : 2;
+        }
         try
         {
             switch (s.coll)
